@@ -55,7 +55,7 @@ Lemma lin_bump (W : lmodType F) n (x : seq F) i delta (v : seq W) : (i < n)%N ->
 Proof.
 move=> ilt.
 have L (s : seq F) : lin n s v = s`_i *: v`_i + \sum_(j <- iota 0 n | j != i) s`_j *: v`_j.
-  by rewrite /lin /index_iota subn0 (bigD1_seq i) ?mem_iota ?iota_uniq.
+  by rewrite linE /index_iota subn0 (bigD1_seq i) ?mem_iota ?iota_uniq.
 rewrite !L nth_bump scalerDl addrAC; congr (_ + _ + _).
 by apply: eq_bigr => j ne; rewrite nth_bump_other.
 Qed.
